@@ -225,6 +225,19 @@ fn flip_case(r: &mut Rng, s: &str) -> String {
 }
 
 fn token(r: &mut Rng) -> String {
+    // a fifth of the free names embed the name of a common header: as a suffix
+    // (Proxy-Connection, X-Forwarded-Host), as a prefix (Accept-Patch, Hostname), or in the middle
+    if r.chance(1, 5) {
+        const COMMON: [&str; 14] = ["Host", "Connection", "Accept", "Accept-Encoding", "Accept-Language", "Accept-Charset", "Keep-Alive", "User-Agent", "Date", "Server", "Content-Type", "Content-Length", "Cookie", "Referer"];
+        const PRE: [&str; 7] = ["Proxy-", "X-Forwarded-", "X-Cache-", "X-Original-", "Not", "X", "Last-"];
+        const POST: [&str; 5] = ["-Patch", "name", "-Id", "2", "-Options"];
+        let c = *r.pick(&COMMON);
+        return match r.below(3) {
+            0 => format!("{}{c}", r.pick(&PRE)),
+            1 => format!("{c}{}", r.pick(&POST)),
+            _ => format!("{}{c}{}", r.pick(&PRE), r.pick(&POST)),
+        };
+    }
     const T: &[u8] = b"abcdefghijklmnopqrstuvwxyzABCDEFGHIJKLMNOPQRSTUVWXYZ0123456789-_.!#$%&'*+^`|~";
     let n = 1 + r.usize(14);
     let mut s = String::from("X-");
